@@ -299,7 +299,7 @@ theorem push_bl : ∀ (x : SVal), frag x = true → noRaw x = true → ∀ (b : 
         rw [hS]
         unfold recordWith
         simp only [room] at hcap
-        refine struct_row_bl hg ha fun k s hm hs hfs hk => ?_
+        refine struct_row_bl hg ha fun k s hm hs hfs _ hk => ?_
         exact pushFields_bl fields hf' hraw' k _ path sfs s [] hm hs (by rw [hfs]; omega)
           (fun hd => mem_structS_own (by simp only [structOwnFails, Bool.or_eq_true]; left; simpa [knownKeys] using hd))
           mem_structS_inner (by simpa using hk)
